@@ -18,7 +18,10 @@ vars == <<tid, l>>
 T == Traces[tid]
 R == T[l]
 
-QueryClause(r) == IF r.post # r.pre THEN "bucket-data-changed-by-query" ELSE "none"
+\* every query_bucket call made by the program returned what a direct windowed read returns at that moment
+QueryClause(r) == IF r.post # r.pre THEN "bucket-data-changed-by-query"
+                  ELSE IF \E k \in 1..Len(r.reads) : r.reads[k].got # r.reads[k].direct THEN "query_bucket-differs-from-direct-windowed-read"
+                  ELSE "none"
 QbClause(r) ==
   LET evs == SeqSet(r.evs) IN
   IF ReadClause(evs, r.res, 0 - 1, r.w) # "none" THEN ReadClause(evs, r.res, 0 - 1, r.w)
